@@ -16,7 +16,7 @@ package json
 
 // C02 (integers): the value handed to strconv is the mathematical value of the
 // argument, in base 10; strconv's decimal text is trusted to denote it.
-//@ track strconv.AppendInt, strconv.AppendUint, strconv.AppendBool, strconv.AppendFloat, math.IsNaN, math.IsInf, Time.Unix, Time.UnixNano, Time.AppendFormat, Encoder.AppendFloat64
+//@ track appendStringComplex, appendBytesComplex, utf8.DecodeRuneInString, utf8.DecodeRune, strconv.AppendInt, strconv.AppendUint, strconv.AppendBool, strconv.AppendFloat, math.IsNaN, math.IsInf, Time.Unix, Time.UnixNano, Time.AppendFormat, Encoder.AppendFloat64
 
 //@ var JSONMarshalFunc(v) res, err
 //@   modifies nothing
@@ -61,8 +61,12 @@ package json
 //@   flag stream
 //@   requires lex(dst) == 0 && openstr(mode(dst)) != 0
 //@   ensures lex(res) == 0 && mode(res) == afterstr(openstr(mode(dst))) && stk(res) == stk(dst) && prefix(res, dst) && len(res) >= len(dst) + 2 && res[len(res)-1] == '"'
+//@   ensures [C02] ncalls(appendStringComplex) >= old(ncalls(appendStringComplex)) && ncalls(appendStringComplex) <= old(ncalls(appendStringComplex)) + 1 && res[len(dst)] == '"'
+//@   ensures [C02] ncalls(appendStringComplex) == old(ncalls(appendStringComplex)) ==> len(res) == len(dst) + len(s) + 2 && (forall k in 0..len(s): res[len(dst) + 1 + k] == s[k] && noEscapeTable[s[k]])
+//@   ensures [C02] ncalls(appendStringComplex) == old(ncalls(appendStringComplex)) + 1 ==> same(callarg(appendStringComplex, old(ncalls(appendStringComplex)), 1), s) && callarg(appendStringComplex, old(ncalls(appendStringComplex)), 2) >= 0 && callarg(appendStringComplex, old(ncalls(appendStringComplex)), 2) < len(s) && (forall k in 0..callarg(appendStringComplex, old(ncalls(appendStringComplex)), 2): noEscapeTable[s[k]]) && len(callarg(appendStringComplex, old(ncalls(appendStringComplex)), 0)) == len(dst) + 1 && prefix(callarg(appendStringComplex, old(ncalls(appendStringComplex)), 0), dst) && callarg(appendStringComplex, old(ncalls(appendStringComplex)), 0)[len(dst)] == '"' && len(res) == len(callres(appendStringComplex, old(ncalls(appendStringComplex)), 0)) + 1 && prefix(res, callres(appendStringComplex, old(ncalls(appendStringComplex)), 0))
 //@   loop 1:
 //@     invariant 0 <= i && i <= len(s) && cleanrun(s, 0, i)
+//@     invariant [C02] forall k in 0..i: noEscapeTable[s[k]]
 //@     decreases len(s) - i
 
 //@ func appendStringComplex(dst, s, i) res
@@ -72,9 +76,35 @@ package json
 //@   flag stream
 //@   requires lex(dst) == 1 && 0 <= i && i <= len(s) && cleanrun(s, 0, i)
 //@   ensures instring(res, dst)
+//@   ensures [C02] cov == len(s)
+//@   ensures [C02] len(hex) == 16 && hex[0] == '0' && hex[9] == '9' && hex[10] == 'a' && hex[15] == 'f'
+//@   site append 1: assert [C02] samearray(chunk, s) && off(chunk) == off(s) + cov && len(chunk) == i - cov
+//@   site append 1: cov += i - start
+//@   site append 2: assert [C02] cov == i && len(chunk) == 6 && chunk[0] == 92 && chunk[1] == 'u' && chunk[2] == 'f' && chunk[3] == 'f' && chunk[4] == 'f' && chunk[5] == 'd'
+//@   site append 2: assert [C02] callres(utf8.DecodeRuneInString, ncalls(utf8.DecodeRuneInString) - 1, 0) == 65533 && callres(utf8.DecodeRuneInString, ncalls(utf8.DecodeRuneInString) - 1, 1) == 1 && samearray(callarg(utf8.DecodeRuneInString, ncalls(utf8.DecodeRuneInString) - 1, 0), s) && off(callarg(utf8.DecodeRuneInString, ncalls(utf8.DecodeRuneInString) - 1, 0)) == off(s) + i
+//@   site append 2: cov += 1
+//@   site append 3: assert [C02] samearray(chunk, s) && off(chunk) == off(s) + cov && len(chunk) == i - cov
+//@   site append 3: cov += i - start
+//@   site append 4: assert [C02] cov == i && len(chunk) == 2 && chunk[0] == 92 && chunk[1] == s[i] && (s[i] == 34 || s[i] == 92)
+//@   site append 4: cov += 1
+//@   site append 5: assert [C02] cov == i && len(chunk) == 2 && chunk[0] == 92 && chunk[1] == 'b' && s[i] == 8
+//@   site append 5: cov += 1
+//@   site append 6: assert [C02] cov == i && len(chunk) == 2 && chunk[0] == 92 && chunk[1] == 'f' && s[i] == 12
+//@   site append 6: cov += 1
+//@   site append 7: assert [C02] cov == i && len(chunk) == 2 && chunk[0] == 92 && chunk[1] == 'n' && s[i] == 10
+//@   site append 7: cov += 1
+//@   site append 8: assert [C02] cov == i && len(chunk) == 2 && chunk[0] == 92 && chunk[1] == 'r' && s[i] == 13
+//@   site append 8: cov += 1
+//@   site append 9: assert [C02] cov == i && len(chunk) == 2 && chunk[0] == 92 && chunk[1] == 't' && s[i] == 9
+//@   site append 9: cov += 1
+//@   site append 10: assert [C02] cov == i && len(chunk) == 6 && chunk[0] == 92 && chunk[1] == 'u' && chunk[2] == '0' && chunk[3] == '0' && chunk[4] == hex[s[i]>>4] && chunk[5] == hex[s[i]&15] && s[i] < 128 && !noEscapeTable[s[i]]
+//@   site append 10: cov += 1
+//@   site append 11: assert [C02] samearray(chunk, s) && off(chunk) == off(s) + cov && len(chunk) == len(s) - cov
+//@   site append 11: cov += len(s) - start
 //@   loop 1:
 //@     invariant 0 <= start && start <= i && i <= len(s) && cleanrun(s, start, i)
 //@     invariant instring(dst, dst0)
+//@     invariant [C02] cov == start
 //@     decreases len(s) - i
 
 //@ func (Encoder).AppendBytes(e, dst, s) res
@@ -84,8 +114,12 @@ package json
 //@   flag stream
 //@   requires lex(dst) == 0 && openstr(mode(dst)) != 0
 //@   ensures lex(res) == 0 && mode(res) == afterstr(openstr(mode(dst))) && stk(res) == stk(dst) && prefix(res, dst) && len(res) >= len(dst) + 2 && res[len(res)-1] == '"'
+//@   ensures [C02] ncalls(appendBytesComplex) >= old(ncalls(appendBytesComplex)) && ncalls(appendBytesComplex) <= old(ncalls(appendBytesComplex)) + 1 && res[len(dst)] == '"'
+//@   ensures [C02] ncalls(appendBytesComplex) == old(ncalls(appendBytesComplex)) ==> len(res) == len(dst) + len(s) + 2 && (forall k in 0..len(s): res[len(dst) + 1 + k] == s[k] && noEscapeTable[s[k]])
+//@   ensures [C02] ncalls(appendBytesComplex) == old(ncalls(appendBytesComplex)) + 1 ==> same(callarg(appendBytesComplex, old(ncalls(appendBytesComplex)), 1), s) && callarg(appendBytesComplex, old(ncalls(appendBytesComplex)), 2) >= 0 && callarg(appendBytesComplex, old(ncalls(appendBytesComplex)), 2) < len(s) && (forall k in 0..callarg(appendBytesComplex, old(ncalls(appendBytesComplex)), 2): noEscapeTable[s[k]]) && len(callarg(appendBytesComplex, old(ncalls(appendBytesComplex)), 0)) == len(dst) + 1 && prefix(callarg(appendBytesComplex, old(ncalls(appendBytesComplex)), 0), dst) && callarg(appendBytesComplex, old(ncalls(appendBytesComplex)), 0)[len(dst)] == '"' && len(res) == len(callres(appendBytesComplex, old(ncalls(appendBytesComplex)), 0)) + 1 && prefix(res, callres(appendBytesComplex, old(ncalls(appendBytesComplex)), 0))
 //@   loop 1:
 //@     invariant 0 <= i && i <= len(s) && cleanrun(s, 0, i)
+//@     invariant [C02] forall k in 0..i: noEscapeTable[s[k]]
 //@     decreases len(s) - i
 
 //@ func appendBytesComplex(dst, s, i) res
@@ -95,9 +129,35 @@ package json
 //@   flag stream
 //@   requires lex(dst) == 1 && 0 <= i && i <= len(s) && cleanrun(s, 0, i)
 //@   ensures instring(res, dst)
+//@   ensures [C02] cov == len(s)
+//@   ensures [C02] len(hex) == 16 && hex[0] == '0' && hex[9] == '9' && hex[10] == 'a' && hex[15] == 'f'
+//@   site append 1: assert [C02] samearray(chunk, s) && off(chunk) == off(s) + cov && len(chunk) == i - cov
+//@   site append 1: cov += i - start
+//@   site append 2: assert [C02] cov == i && len(chunk) == 6 && chunk[0] == 92 && chunk[1] == 'u' && chunk[2] == 'f' && chunk[3] == 'f' && chunk[4] == 'f' && chunk[5] == 'd'
+//@   site append 2: assert [C02] callres(utf8.DecodeRune, ncalls(utf8.DecodeRune) - 1, 0) == 65533 && callres(utf8.DecodeRune, ncalls(utf8.DecodeRune) - 1, 1) == 1 && samearray(callarg(utf8.DecodeRune, ncalls(utf8.DecodeRune) - 1, 0), s) && off(callarg(utf8.DecodeRune, ncalls(utf8.DecodeRune) - 1, 0)) == off(s) + i
+//@   site append 2: cov += 1
+//@   site append 3: assert [C02] samearray(chunk, s) && off(chunk) == off(s) + cov && len(chunk) == i - cov
+//@   site append 3: cov += i - start
+//@   site append 4: assert [C02] cov == i && len(chunk) == 2 && chunk[0] == 92 && chunk[1] == s[i] && (s[i] == 34 || s[i] == 92)
+//@   site append 4: cov += 1
+//@   site append 5: assert [C02] cov == i && len(chunk) == 2 && chunk[0] == 92 && chunk[1] == 'b' && s[i] == 8
+//@   site append 5: cov += 1
+//@   site append 6: assert [C02] cov == i && len(chunk) == 2 && chunk[0] == 92 && chunk[1] == 'f' && s[i] == 12
+//@   site append 6: cov += 1
+//@   site append 7: assert [C02] cov == i && len(chunk) == 2 && chunk[0] == 92 && chunk[1] == 'n' && s[i] == 10
+//@   site append 7: cov += 1
+//@   site append 8: assert [C02] cov == i && len(chunk) == 2 && chunk[0] == 92 && chunk[1] == 'r' && s[i] == 13
+//@   site append 8: cov += 1
+//@   site append 9: assert [C02] cov == i && len(chunk) == 2 && chunk[0] == 92 && chunk[1] == 't' && s[i] == 9
+//@   site append 9: cov += 1
+//@   site append 10: assert [C02] cov == i && len(chunk) == 6 && chunk[0] == 92 && chunk[1] == 'u' && chunk[2] == '0' && chunk[3] == '0' && chunk[4] == hex[s[i]>>4] && chunk[5] == hex[s[i]&15] && s[i] < 128 && !noEscapeTable[s[i]]
+//@   site append 10: cov += 1
+//@   site append 11: assert [C02] samearray(chunk, s) && off(chunk) == off(s) + cov && len(chunk) == len(s) - cov
+//@   site append 11: cov += len(s) - start
 //@   loop 1:
 //@     invariant 0 <= start && start <= i && i <= len(s) && cleanrun(s, start, i)
 //@     invariant instring(dst, dst0)
+//@     invariant [C02] cov == start
 //@     decreases len(s) - i
 
 //@ func (Encoder).AppendHex(e, dst, s) res
